@@ -142,8 +142,14 @@ package stanza
 // ---------------------------------------------------------------------------
 // C02: stream parsing (interface used by the connection-level properties)
 //@ event PacketRead(pk Iface)
+//@ event StanzaRead(pk Iface)
+//@ event AckReqRead(pk Iface)
+//@ pred isStanzaPk(p) := typeof(p) == Message || typeof(p) == *IQ || typeof(p) == Presence
 //@ func stanza.NextPacket(p) (pk, err)
 //@   requires p != nil
 //@   emit PacketRead(pk) when err == nil
+//@   emit StanzaRead(pk) when err == nil && isStanzaPk(pk)
+//@   emit AckReqRead(pk) when err == nil && typeof(pk) == SMRequest
+//@   ensures typeof(pk) == *IQ ==> pk.(*IQ) != nil
 //@   ensures [C02.total.result] (err == nil) == (pk != nil)
 //@   bounded
